@@ -27,6 +27,17 @@ Inductive task :=
       mapped) and forwarded to this task's command; names = the abort handles retained for that command
       (a.and(b) shares a's flag, so one command can be known under several names) *)
 
+(* builder chains (command/builder.rs): a request builder yields one value, a stream builder many *)
+Inductive rbld :=
+| RbReq (tg : nat) (e : expr)                (* Command::request_from_shell(op) *)
+| RbMap (r : rbld) (n : nat)                 (* .map(|v| v + n) *)
+| RbThenReq (r : rbld) (tg : nat).           (* .then_request(|v| request(op tg v)) *)
+Inductive sbld :=
+| SbStr (tg : nat) (e : expr)                (* Command::stream_from_shell(op) *)
+| SbMap (s : sbld) (n : nat)
+| SbThenReq (s : sbld) (tg : nat)            (* stream.then_request: one request per item, in item order *)
+| SbOfReq (r : rbld) (tg : nat).             (* request.then_stream(|v| stream(op tg v)) *)
+
 Inductive cmd :=
 | CNew (main : task) (extra : list task)      (* Command::new(main) followed by cmd.spawn(extra_i) *)
 | CThen (a b : cmd)
@@ -37,7 +48,9 @@ Inductive cmd :=
 | CIdEff (c : cmd)                            (* map_effect(|e| e) *)
 | CIdEv (c : cmd)                             (* map_event(|e| e) *)
 | CInto (c : cmd)                             (* Command::into / from with identity conversions *)
-| CAbortable (name : nat) (c : cmd).          (* keep c.abort_handle() under [name] (>= 1) *)
+| CAbortable (name : nat) (c : cmd)           (* keep c.abort_handle() under [name] (>= 1) *)
+| CSendR (r : rbld) (evtag : nat)             (* builder.then_send(|v| Event(evtag, v)) *)
+| CSendS (s : sbld) (evtag : nat).
 
 (* What the harness does with a program: a command (with its handler table when run under Core)
    and a schedule of shell actions. *)
@@ -57,6 +70,23 @@ Definition c_notify tg n := CNew (TNotify tg (K n) TRet) [].
 Definition c_req_send tg n evtag := CNew (TReq tg (K n) 0 (TEmit evtag (V 0) TRet)) [].
 Definition c_stream_send tg n evtag := CNew (TForEach tg (K n) 0 (TEmit evtag (V 0) TRet) TRet) [].
 
+(* builder chains are single tasks: each stage awaits the previous one's output; a stream stage runs
+   its continuation once per item, sequentially (StreamExt::then).  The value in flight lives in
+   variables 20 / 21, which generated programs do not use. *)
+Fixpoint task_of_rb (r : rbld) (k : expr -> task) : task :=
+  match r with
+  | RbReq tg e => TReq tg e 20 (k (V 20))
+  | RbMap r' n => task_of_rb r' (fun v => k (Plus v (K n)))
+  | RbThenReq r' tg => task_of_rb r' (fun v => TReq tg v 20 (k (V 20)))
+  end.
+Fixpoint task_of_sb (s : sbld) (body : expr -> task) : task :=
+  match s with
+  | SbStr tg e => TForEach tg e 20 (body (V 20)) TRet
+  | SbMap s' n => task_of_sb s' (fun v => body (Plus v (K n)))
+  | SbThenReq s' tg => task_of_sb s' (fun v => TReq tg v 21 (body (V 21)))
+  | SbOfReq r tg => task_of_rb r (fun v => TForEach tg v 20 (body (V 20)) TRet)
+  end.
+
 (* compile: the combinators as the code defines them (command/mod.rs) *)
 Record cx := mkCx { cx_name : list nat; cx_main : task; cx_extra : list task }.
 Definition host_of (meff mev : nat) (c : cx) (k : task) : task :=
@@ -75,4 +105,6 @@ Fixpoint compile (c : cmd) : cx :=
   | CIdEv c' => mkCx [] (host_of 0 0 (compile c') TRet) []
   | CInto c' => mkCx [] (host_of 0 0 (mkCx [] (host_of 0 0 (compile c') TRet) []) TRet) []
   | CAbortable n c' => let cc := compile c' in mkCx (n :: cx_name cc) (cx_main cc) (cx_extra cc)
+  | CSendR r ev => mkCx [] (task_of_rb r (fun v => TEmit ev v TRet)) []
+  | CSendS s ev => mkCx [] (task_of_sb s (fun v => TEmit ev v TRet)) []
   end.
